@@ -403,6 +403,7 @@ where
                 z,
                 z_d,
                 z_b,
+                r_eval,
             });
         }
 
@@ -423,7 +424,7 @@ where
         vk: &Self::VerifierKey,
         commitments: impl IntoIterator<Item = &'a LabeledCommitment<Self::Commitment>>,
         point: &'a P::Point,
-        _values: impl IntoIterator<Item = G::ScalarField>,
+        values: impl IntoIterator<Item = G::ScalarField>,
         proof: &Self::Proof,
         sponge: &mut impl CryptographicSponge,
         _rng: Option<&mut dyn RngCore>,
@@ -452,15 +453,17 @@ where
         let r = tensor_prime(point_upper);
 
         let commitments: Vec<_> = commitments.into_iter().collect();
-        if commitments.len() != proof.len() {
+        let values: Vec<_> = values.into_iter().collect();
+        if commitments.len() != proof.len() || values.len() != proof.len() {
             return Err(Error::IncorrectInputLength(ark_std::format!(
-                "Expected one opening proof per commitment: {} commitments, {} proofs",
+                "Expected one value and one opening proof per commitment: {} commitments, {} values, {} proofs",
                 commitments.len(),
+                values.len(),
                 proof.len()
             )));
         }
 
-        for (com, h_proof) in commitments.into_iter().zip(proof.iter()) {
+        for ((com, value), h_proof) in commitments.into_iter().zip(values).zip(proof.iter()) {
             let row_coms = &com.commitment().row_coms;
 
             // extract each field from h_proof
@@ -471,7 +474,13 @@ where
                 z,
                 z_d,
                 z_b,
+                r_eval,
             } = h_proof;
+
+            // The claimed value must be the one committed to in `com_eval`
+            if *com_eval != (vk.com_key[0] * value + vk.h * r_eval).into() {
+                return Ok(false);
+            }
 
             if row_coms.len() != 1 << n / 2 {
                 return Err(Error::IncorrectCommitmentSize {
